@@ -5,7 +5,7 @@ import glob
 import os
 from collections import Counter
 
-from ..common import REPO, import_sismic
+from ..common import REPO, VERIF_DIR, import_sismic
 from ..gen import chart_digest, gen_chart
 from ..lockstep import Runner, first_difference, gen_script
 from ..probes import Probes, make_val
@@ -27,7 +27,7 @@ RULE = ('One case = (a) "text torture": a generated structure whose state names,
         'containing >= 1 torture string and >= 1 of {history, orthogonal, contract, priority != 0}.')
 ASSUMPTIONS = ['characters YAML cannot carry without escaping rules of its own (C0/C1 controls other than \\n \\t, U+2028/2029, BOM, '
                'surrogates, \\r) are excluded; event names carry no surrounding whitespace; code strings are non-empty after stripping']
-REQUIRED_COUNTERS = ['yaml_1_1_document_imported_before', 'roundtrips', 'fields_compared', 'eq_checks', 'second_roundtrips', 'behaviour_steps_compared',
+REQUIRED_COUNTERS = ['roundtrips_through_existing_file', 'yaml_1_1_document_imported_before', 'roundtrips', 'fields_compared', 'eq_checks', 'second_roundtrips', 'behaviour_steps_compared',
                      'shipped_roundtrips', 'charts_with_long_nonascii', 'charts_with_noncontiguous_transitions']
 TIERS = dict(quick=dict(steps=25, gen=dict(max_states=10, max_depth=4, max_trans=12)),
              thorough=dict(steps=45, gen=dict(max_states=16, max_depth=5, max_trans=22)))
@@ -192,14 +192,28 @@ def torture_names(rnd, ch):
     return smap, emap
 
 
+FILE = [None]
+
+
 def roundtrip(acc, sc, wit):
+    via_file = (acc.counters.get('roundtrips', 0) % 4 == 3)
     try:
-        y = export_to_yaml(sc)
+        if via_file:
+            # documented filepath parameters, on a path that already holds an earlier (possibly longer) export
+            import tempfile
+            if FILE[0] is None:
+                os.makedirs(os.path.join(VERIF_DIR, '.work'), exist_ok=True)
+                fd, FILE[0] = tempfile.mkstemp(prefix='c11-', suffix='.yaml', dir=os.path.join(VERIF_DIR, '.work'))
+                os.close(fd)
+            y = export_to_yaml(sc, filepath=FILE[0])
+            acc.count('roundtrips_through_existing_file')
+        else:
+            y = export_to_yaml(sc)
     except Exception as e:      # noqa
         acc.violation('C11:export-raised', 'export_to_yaml raised %s: %s' % (type(e).__name__, str(e)[:200]), wit)
         return None, None
     try:
-        sc2 = import_from_yaml(y)
+        sc2 = import_from_yaml(filepath=FILE[0]) if via_file else import_from_yaml(y)
     except Exception as e:      # noqa
         acc.violation('C11:import-of-export-raised', 'import_from_yaml(export_to_yaml(sc)) raised %s: %s' %
                       (type(e).__name__, str(e)[:300]), dict(wit, yaml=y[:3000]))
@@ -343,3 +357,8 @@ def shipped_case(acc, rnd):
         return
     acc.count('shipped_roundtrips')
     acc.nontrivial((os.path.basename(path), 'shipped'), cls='shipped')
+
+
+def finish_shard(acc, shard, nshards):
+    if FILE[0] and os.path.exists(FILE[0]):
+        os.remove(FILE[0])
